@@ -16,6 +16,7 @@ CFG = {'assumptions': ["64*len(words) < 2^31 (Go's int32 positions cannot overfl
         'bitmap.Rank/laws': 'the three flavours (IndexRank64, IndexRank64 trailing, IndexRank128) at two positions i <= j '
                             'plus the trailing total; judged by the laws alone (agreement, step, monotone, bounds, end)',
         'bitmap.Rank/concat': 'Rank on append(a, b) against the piecewise computation from the indexes of a and of b',
+        'bitmap.Rank/complement': 'Rank on words and on the word-wise complement at the same position (counts add up to i, bits to 1)',
         'bitmap.IndexRank/all': 'IndexRank64(words), IndexRank64(words, true), IndexRank128(words) side by side',
         'bitmap.IndexRank/rle': 'the same on a run-length encoded bitmap [[count, word], ...]',
         'bitmap.Rank/rle': 'Rank64 / Rank128 on a run-length encoded bitmap',
